@@ -1,14 +1,13 @@
-"""Family A: the word -> instruction tables against the frozen reference lexicons.
-
-A1 LEX-CARD, A2 LEX-ORD, A3 SPLIT-CLOSURE, A4 DEC-TABLE, A5 SEP-MARK, A6 ZERO-ARM, A7 GUARD-ATOMS,
-A9 LEN-ZERO-SENSITIVE, A10 CONJ.
+"""Family A, shared parts: reference lexicons, number spelling, grammar context tables and the context rules
+A1b SCALE-CONTEXTS, A1c COMPOSE-CONTEXTS, A2b GROUP-ORDINAL, A7b BLOCK-CONTEXTS, A9b ZERO-INVARIANCE.
+The word-level rules (A1..A10) live in lexeval.py.  Everything is decided by evaluating the interpreter source.
 """
 import json
 import os
 import re
 
 from .. import hir as H
-from ..armtable import Compound, LexEvaluator, Splitter, Table, splitter_patterns
+from ..armtable import Compound, LexEvaluator, Splitter, splitter_patterns
 from ..facts import LANGS, TRAIT, interp_method
 from ..peval import Builder, Marker, Res, Unanalysable
 
@@ -19,10 +18,6 @@ ALL_LANGS = sorted(LANGS)
 def lexicon(lang):
     with open(os.path.join(LEXDIR, lang + '.json')) as fh:
         return json.load(fh)
-
-
-def table(ctx, lang, method='apply'):
-    return ctx.memo(('table', lang, method), lambda: Table(ctx.facts, lang, method))
 
 
 def evaluator(ctx, lang):
@@ -44,607 +39,6 @@ def expected_ops(lang, cls, v):
     if cls == 'vig_vingt':
         return {'fput(b"80")', 'put(b"20")'}
     return {'shift(%d)' % {'hundred': 2, 'thousand': 3, 'million': 6, 'milliard': 9, 'billion12': 12}[cls]}
-
-
-def placing(leaves):
-    return {l.sig() for l in leaves if l.kind == 'op'}
-
-
-def lookup(ctx, lang, word):
-    """(lemma, [arms]) for a surface word, via partial evaluation of the scrutinee."""
-    t = table(ctx, lang)
-    ev = evaluator(ctx, lang)
-    lem = ev.lemma(t, word)
-    return lem, t.arms_for(lem)
-
-
-def _loc(ctx, arm):
-    return ctx.facts.loc(arm.sp)
-
-
-# ---------------------------------------------------------------------------------------
-def rule_lex_card(ctx, rep, langs=ALL_LANGS):
-    R = 'A1-LEX-CARD'
-    rep.rule(R, 'every core cardinal form of the reference lexicon selects an arm of the word table whose placing leaves '
-                'realise the instruction its class prescribes for its value')
-    n = 0
-    for lang in langs:
-        lx = lexicon(lang)
-        try:
-            t = table(ctx, lang)
-        except Unanalysable as e:
-            rep.anchor(R, lang, 'word table of %s is not analysable: %s' % (lang, e))
-            continue
-        ev = evaluator(ctx, lang)
-        for c in lx['cardinals']:
-            w, v, cls, tier = c['w'], c['v'], c['class'], c['tier']
-            ent = '%s|%s' % (lang, w)
-            try:
-                lem, arms = lookup(ctx, lang, w)
-            except Unanalysable as e:
-                rep.anchor(R, ent, 'cannot evaluate the lemmatizer on "%s": %s' % (w, e))
-                continue
-            n += 1
-            if not arms:
-                if tier == 'core':
-                    rep.violation(R, ent, '"%s" (%d) has no arm in the %s word table (lemma "%s"): the standard spelling of every number '
-                                  'containing it is rejected or split' % (w, v, lang, lem), ctx.facts.loc(t.body['sp']))
-                else:
-                    rep.info(R, ent, 'variant form "%s" is not supported by the tree' % w)
-                continue
-            arm = arms[0]
-            want = expected_ops(lang, cls, v)
-            got = placing(t.leaves(arm))
-            if got != want:
-                rep.violation(R, ent, '"%s" should place %s (class %s, value %d) but its arm places %s' % (w, sorted(want), cls, v, sorted(got)), _loc(ctx, arm))
-                continue
-            # vigesimal arms: the conditions select 60 / 80 (resp. 4) as predecessor
-            if cls in ('vig_teen', 'vig_vingt'):
-                bad = []
-                for l in t.leaves(arm):
-                    if l.kind == 'op' and l.op == 'fput':
-                        tens = bytes(l.args[0])[:1]
-                        need = {b'7': 'b"60"', b'9': 'b"90"' if False else 'b"80"', b'8': 'b"4"'}[tens]
-                        if not any(need in cnd for cnd in l.conds):
-                            bad.append('%s under %s' % (l.sig(), l.conds))
-                if bad:
-                    rep.violation(R, ent, 'vigesimal leaf with the wrong predecessor test: %s' % bad, _loc(ctx, arm))
-                    continue
-            # on a fresh builder the word alone must be accepted with exactly that instruction
-            if cls in ('unit', 'teen', 'ten', 'ten_unit', 'hundred_lex', 'thousand_lex', 'vig_teen', 'vig_vingt'):
-                try:
-                    r, b = ev.run_apply(w)
-                    ops = ['%s(%s)' % (o[0], ', '.join(('b"%s"' % x.decode() if isinstance(x, bytes) else str(x)) for x in o[1:])) for o in b.ops if o[0] != 'freeze']
-                    first = {'vig_teen': 'put(b"%d")' % v, 'vig_vingt': 'put(b"20")'}.get(cls) or sorted(want)[0]
-                    if not (isinstance(r, Res) and r.ok and ops == [first]):
-                        rep.violation(R, ent, 'apply("%s") on a fresh builder yields %r with %s, expected Ok with [%s]' % (w, r, ops, first), _loc(ctx, arm))
-                        continue
-                except Compound:
-                    rep.violation(R, ent, '"%s" is split by the word splitter although it is an atomic number word' % w, _loc(ctx, arm))
-                    continue
-                except Unanalysable as e:
-                    rep.anchor(R, ent, 'apply("%s") left the analysable fragment: %s' % (w, e), _loc(ctx, arm))
-                    continue
-            rep.ok(R, ent, '"%s" -> %s' % (w, sorted(want)), _loc(ctx, arm))
-    rep.floor(R, n, 60 * len(langs) // 2, 'cardinal lexicon entries evaluated')
-
-
-def rule_lex_ord(ctx, rep, langs=ALL_LANGS):
-    R = 'A2-LEX-ORD'
-    rep.rule(R, 'every core ordinal form selects an arm with the instruction of its cardinal, is given the expected marker by '
-                'get_morph_marker / the postlude (evaluated on the form) and freezes the builder where the language does so')
-    n = 0
-    for lang in langs:
-        lx = lexicon(lang)
-        try:
-            t = table(ctx, lang)
-        except Unanalysable as e:
-            rep.anchor(R, lang, 'word table not analysable: %s' % e)
-            continue
-        ev = evaluator(ctx, lang)
-        for o in lx['ordinals']:
-            w, v, mk, cls, tier = o['w'], o['v'], o['marker'], o['class'], o['tier']
-            ent = '%s|%s' % (lang, w)
-            try:
-                lem, arms = lookup(ctx, lang, w)
-            except Unanalysable as e:
-                rep.anchor(R, ent, 'cannot evaluate the lemmatizer on "%s": %s' % (w, e))
-                continue
-            n += 1
-            if not arms:
-                if tier == 'core':
-                    rep.violation(R, ent, 'ordinal "%s" (rank %d) has no arm in the %s word table (lemma "%s"): that rank is never '
-                                  'recognised' % (w, v, lang, lem), ctx.facts.loc(t.body['sp']))
-                else:
-                    rep.info(R, ent, 'variant ordinal "%s" is not supported by the tree' % w)
-                continue
-            arm = arms[0]
-            want = expected_ops(lang, cls, v)
-            got = placing(t.leaves(arm))
-            if got != want:
-                rep.violation(R, ent, 'ordinal "%s" (rank %d) should place %s but its arm places %s' % (w, v, sorted(want), sorted(got)), _loc(ctx, arm))
-                continue
-            pre = o.get('after')
-            b0 = Builder(digits=pre['digits'].encode(), marker=Marker('Ordinal', pre['marker'])) if pre else Builder()
-            try:
-                r, b = ev.run_apply(w, b0)
-            except Compound:
-                rep.violation(R, ent, 'atomic ordinal "%s" is split by the word splitter' % w, _loc(ctx, arm))
-                continue
-            except Unanalysable as e:
-                rep.anchor(R, ent, 'apply("%s") left the analysable fragment: %s' % (w, e), _loc(ctx, arm))
-                continue
-            problems = []
-            if not (isinstance(r, Res) and r.ok):
-                problems.append('apply on a fresh builder returns %r' % (r,))
-            else:
-                if b.marker != Marker('Ordinal', mk):
-                    problems.append('marker is %r, expected Ordinal(%r)' % (b.marker, mk))
-                if lx['freezes_ordinals'] and not b.frozen:
-                    problems.append('the builder is not frozen after the ordinal')
-            if problems:
-                if tier == 'core':
-                    rep.violation(R, ent, 'ordinal "%s": %s' % (w, '; '.join(problems)), _loc(ctx, arm))
-                else:
-                    rep.info(R, ent, 'variant ordinal "%s": %s' % (w, '; '.join(problems)))
-            else:
-                rep.ok(R, ent, '"%s" -> %s + marker %s' % (w, sorted(want), mk), _loc(ctx, arm))
-    rep.floor(R, n, 40 * len(langs) // 2, 'ordinal lexicon entries evaluated')
-
-
-# ---------------------------------------------------------------------------------------
-def rule_zero_arm(ctx, rep, langs=ALL_LANGS):
-    R = 'A6-ZERO-ARM'
-    rep.rule(R, 'the zero word(s) select an arm whose only leaf is an unguarded put(b"0"); synonyms share that arm')
-    for lang in langs:
-        lx = lexicon(lang)
-        t = table(ctx, lang)
-        arms = set()
-        for z in lx['zero']:
-            ent = '%s|%s' % (lang, z)
-            lem, found = lookup(ctx, lang, z)
-            if not found:
-                rep.violation(R, ent, 'zero word "%s" has no arm' % z)
-                continue
-            arm = found[0]
-            arms.add(id(arm))
-            leaves = t.leaves(arm)
-            ok = arm.guard is None and len(leaves) == 1 and leaves[0].sig() == 'put(b"0")' and not leaves[0].conds
-            rep.check(ok, R, ent, 'unguarded put(b"0")', 'zero word "%s" is handled by %s%s: zeros are rejected or misplaced in some states' % (
-                z, leaves, ' under guard ' + H.render(arm.guard) if arm.guard else ''), _loc(ctx, arm))
-        rep.check(len(arms) <= 1, R, lang + '|shared', 'all zero synonyms share one arm', 'zero synonyms are spread over %d arms' % len(arms))
-
-
-def rule_conj(ctx, rep, langs=ALL_LANGS):
-    R = 'A10-CONJ'
-    rep.rule(R, 'the conjunction word selects an arm whose only leaf is Err(Incomplete) under the class guard')
-    for lang in langs:
-        lx = lexicon(lang)
-        cj = lx.get('conjunction')
-        if not cj:
-            continue
-        t = table(ctx, lang)
-        ent = '%s|%s' % (lang, cj)
-        lem, found = lookup(ctx, lang, cj)
-        if not found:
-            rep.violation(R, ent, 'conjunction "%s" has no arm' % cj)
-            continue
-        arm = found[0]
-        leaves = t.leaves(arm)
-        atoms = sorted(_atoms(t, arm))
-        want = {'len>=2': ['(B.len() >= 2)'], 'none': [],
-                'pt': ['!' + PT_OM, '(B.len() >= 2)', 'B.marker.is_none()']}[lx['conjunction_guard']]
-        ok = len(leaves) == 1 and leaves[0].sig() == 'Err(Incomplete)' and atoms == sorted(want)
-        rep.check(ok, R, ent, 'Err(Incomplete) under %s' % (want or 'no guard'),
-                  'conjunction "%s" is handled by %s under %s, expected Err(Incomplete) under %s' % (cj, leaves, atoms, want), _loc(ctx, arm))
-
-
-def _names(t):
-    return t.names
-
-
-PT_R = 'Restriction::from_bits_truncate(B.flags)'
-PT_OM = PT_R + '.contains(Restriction::ONLY_MULTIPLIERS)'
-PT_SB = '(%s || ((!%s.contains(Restriction::CONJUNCTION) && self.get_morph_marker(W).is_none()) && !B.is_free(4)))' % (PT_OM, PT_R)
-BLK = 'Excludable::from_bits_truncate(B.flags)'
-
-
-def _atoms(t, arm):
-    if arm.guard is None:
-        return []
-    return [H.norm_atom(c, _names(t)) for c in H.conjuncts(arm.guard)]
-
-
-# ---------------------------------------------------------------------------------------
-FR_OWN = {'un': 'UN', 'deux': 'DEUX', 'trois': 'TROIS', 'quatre': 'QUATRE', 'cinq': 'CINQ', 'six': 'SIX'}
-
-
-def rule_guard_atoms(ctx, rep, langs=ALL_LANGS):
-    R = 'A7-GUARD-ATOMS'
-    rep.rule(R, 'every member of a sibling class of arms (units, teens, tens, hundreds, thousand, million) carries the guard atoms '
-                'and side assignments of its class: the tests that keep two adjacent numbers apart')
-    n = 0
-    for lang in langs:
-        lx = lexicon(lang)
-        t = table(ctx, lang)
-        seen = set()
-        entries = [(c['w'], c['v'], c['class'], 'card', c['tier']) for c in lx['cardinals']] + \
-                  [(o['w'], o['v'], o['class'], 'ord', o['tier']) for o in lx['ordinals']]
-        for w, v, cls, kind, tier in entries:
-            try:
-                lem, found = lookup(ctx, lang, w)
-            except Unanalysable:
-                continue
-            if not found:
-                continue
-            arm = found[0]
-            key = (id(arm), cls, kind)
-            if key in seen:
-                continue
-            seen.add(key)
-            atoms = set(_atoms(t, arm))
-            sides = set()
-            for l in t.leaves(arm):
-                sides |= set(l.sides)
-            need_atoms, need_sides = _class_requirements(lang, w, lem, v, cls, kind)
-            if need_atoms is None:
-                continue
-            n += 1
-            ent = '%s|%s|%s' % (lang, cls, '/'.join(arm.pats[:3]))
-            missing = [a for a in need_atoms if a not in atoms]
-            missing_s = [s for s in need_sides if s not in sides]
-            if missing or missing_s:
-                rep.violation(R, ent, 'arm %s lacks %s%s of its class (%s %s): without it a %s following another number is fused into it' % (
-                    arm.pats, ('guard ' + ' && '.join(missing)) if missing else '', (' side effect ' + ', '.join(missing_s)) if missing_s else '',
-                    lang, cls, cls), _loc(ctx, arm))
-            else:
-                rep.ok(R, ent, 'guard %s%s' % (sorted(need_atoms), (' sides %s' % sorted(need_sides)) if need_sides else ''), _loc(ctx, arm))
-        # flag bookkeeping in the postlude
-        if lang in ('fr', 'de', 'nl'):
-            n += 1
-            ok, why = _flags_postlude(t)
-            rep.check(ok, R, lang + '|postlude-flags', 'success stores to_block.bits() into b.flags, failure clears them', why, ctx.facts.loc(t.body['sp']))
-        if lang == 'pt':
-            n += 1
-            ok, why = _pt_definitions(t)
-            rep.check(ok, R, 'pt|flag-definitions', 'smaller_blocked / only_multipliers are defined from the flags as confirmed', why, ctx.facts.loc(t.body['sp']))
-    rep.floor(R, n, 60, 'guard-class obligations')
-
-
-def _class_requirements(lang, w, lem, v, cls, kind):
-    atoms, sides = [], []
-    if cls == 'thousand':
-        return ['B.is_range_free(3, 5)'], []
-    if cls == 'million':
-        return ['B.is_range_free(6, 8)'], []
-    if lang == 'en' and cls == 'unit':
-        return ['(B.peek(2) != b"10")'], []
-    if lang == 'es' and cls == 'unit' and kind == 'card':
-        return ['(B.peek(2) != b"10")', '(B.peek(2) != b"20")'], []
-    if lang == 'pt':
-        if cls == 'unit' and kind == 'card':
-            return ['(B.peek(2) != b"10")', '!' + PT_SB], []
-        if cls in ('teen', 'ten') or (cls == 'unit' and lem == 'non'):
-            return ['!' + PT_SB], []
-        if cls == 'hundred_lex':
-            return ['!' + PT_OM], (['$FLAGS = Restriction::ONLY_MULTIPLIERS'] if lem == 'cem' else [])
-    if lang == 'it' and cls == 'unit':
-        if kind == 'ord' and lem in ('prim', 'second', 'terz', 'quart', 'quint', 'sest', 'settim', 'ottav', 'non'):
-            return (['B.is_empty()', '("non" != W)'] if lem == 'non' else ['B.is_empty()']), []
-        if v in (1, 8):
-            return ['B.is_free(2)'], []
-        return ['(B.peek(2) != b"10")'], []
-    if lang in ('de', 'nl'):
-        if cls == 'unit':
-            return ['B.is_free(2)'], ['$FLAGS = Excludable::TENS']
-        if cls == 'ten':
-            return ['!' + BLK + '.contains(Excludable::TENS)'], []
-    if lang == 'fr':
-        if cls == 'unit' and kind == 'card' and w in FR_OWN or (cls == 'unit' and kind == 'ord' and 1 <= v <= 6 and not w.startswith('premi')):
-            own = ['UN', 'DEUX', 'TROIS', 'QUATRE', 'CINQ', 'SIX'][v - 1]
-            return ['!' + BLK + '.contains(Excludable::%s)' % own], []
-        if cls == 'unit' and w.startswith('premi'):
-            return ['B.is_empty()'], []
-        if cls == 'vig_teen' and v == 10:
-            return [], ['$FLAGS = Excludable::UN_SIX']
-        if cls == 'ten':
-            return [], ['$FLAGS = Excludable::UN']
-        if cls == 'vig_vingt':
-            return [], ['$FLAGS = Excludable::UN']
-    return None, None
-
-
-def _flags_postlude(t):
-    """`if status.is_ok() { b.flags = to_block.bits(); .. } else { b.flags = 0 }` after the table."""
-    names = _names(t)
-    for n in H.walk(t.body['value']):
-        if n.get('k') == 'If' and H.render(n['c'], names) == '$STATUS.is_ok()':
-            then_w = [H.render(x, names) for x in H.find(n['t'], 'Assign')]
-            else_w = [H.render(x, names) for x in H.find(n['e'], 'Assign')] if n.get('e') else []
-            if 'B.flags = $FLAGS.bits()' in then_w and 'B.flags = 0' in else_w:
-                return True, ''
-            return False, 'postlude writes %s on success and %s on failure' % (then_w, else_w)
-    return False, 'no `if <status>.is_ok()` postlude found'
-
-
-def _pt_definitions(t):
-    """The three-way flag update of the Portuguese postlude (the flag-derived conditions themselves are inlined
-    into the guard atoms, so a changed definition shows up there)."""
-    names = _names(t)
-    rendered = [H.render(x, names) for x in H.find(t.body['value'], 'Assign')]
-    for w in ('B.flags = $FLAGS.bits()', 'B.flags = Restriction::CONJUNCTION.bits()', 'B.flags = 0'):
-        if w not in rendered:
-            return False, 'flag update `%s` missing (have %s)' % (w, [r for r in rendered if r.startswith('B.flags')])
-    return True, ''
-
-
-# ---------------------------------------------------------------------------------------
-def rule_len_zero_sensitive(ctx, rep, langs=ALL_LANGS):
-    R = 'A9-LEN-ZERO-SENSITIVE'
-    rep.rule(R, 'no guard or arm condition tests DigitString::len() (which counts leading zeros) for equality with a constant: '
-                'that is a zero-sensitive way of asking "is the value so far a single digit"')
-    n = 0
-    for lang in langs:
-        t = table(ctx, lang)
-        names = _names(t)
-        for arm in t.arms:
-            nodes = []
-            if arm.guard is not None:
-                nodes.append(arm.guard)
-            nodes.append(arm.body)
-            for root in nodes:
-                for x in H.walk(root):
-                    if x.get('k') == 'Binary' and x.get('op') in ('Eq', 'Ne'):
-                        n += 1
-                        for a, b in ((x['l'], x['r']), (x['r'], x['l'])):
-                            a = H.peel(a)
-                            if a.get('k') == 'MethodCall' and (a.get('callee') or '').endswith('DigitString::len') and H.lit(b) and H.lit(b)[0] == 'int':
-                                rep.violation(R, '%s|%s|%s' % (lang, '/'.join(arm.pats[:2]), H.render(x, names)),
-                                              'arm %s tests `%s`: leading zeros change the answer, so e.g. "zero %s" after zeros is rejected although '
-                                              'the value so far is unchanged' % (arm.pats, H.render(x, names), arm.pats[0]), ctx.facts.loc(x['sp']))
-    rep.ok(R, 'inventory', '%d equality tests in guards and arm bodies inspected' % n)
-    rep.floor(R, n, 40, 'equality tests inspected')
-
-
-# ---------------------------------------------------------------------------------------
-def rule_dec_table(ctx, rep, langs=ALL_LANGS):
-    R = 'A4-DEC-TABLE'
-    rep.rule(R, 'apply_decimal: English and German map each digit word to push(b"d") (zero synonyms share an arm, default NaN); '
-                'the other languages forward to apply unchanged')
-    for lang in langs:
-        lx = lexicon(lang)
-        try:
-            t = table(ctx, lang, 'apply_decimal')
-        except Unanalysable as e:
-            rep.anchor(R, lang, 'apply_decimal not analysable: %s' % e)
-            continue
-        if 'decimal_digits' in lx:
-            if t.match is None:
-                rep.violation(R, lang + '|table', '%s apply_decimal is no longer a digit-by-digit table' % lang, ctx.facts.loc(t.body['sp']))
-                continue
-            scr_ok = H.local_id(t.match['scrut']) == t.word_param[0]
-            rep.check(scr_ok, R, lang + '|scrutinee', 'matches the word as given', 'apply_decimal matches `%s`' % H.render(t.match['scrut']))
-            zero_arms = set()
-            for w, d in sorted(lx['decimal_digits'].items()):
-                arms = t.arms_for(w)
-                ent = '%s|%s' % (lang, w)
-                if not arms:
-                    rep.violation(R, ent, 'decimal digit word "%s" has no arm: every fraction containing it is cut short' % w, ctx.facts.loc(t.body['sp']))
-                    continue
-                leaves = t.leaves(arms[0])
-                ok = arms[0].guard is None and len(leaves) == 1 and leaves[0].sig() == 'push(b"%d")' % d and not leaves[0].conds
-                rep.check(ok, R, ent, 'push(b"%d")' % d, 'decimal digit "%s" is handled by %s, expected push(b"%d")' % (w, leaves, d), _loc(ctx, arms[0]))
-                if d == 0:
-                    zero_arms.add(id(arms[0]))
-            rep.check(len(zero_arms) == 1, R, lang + '|zero-shared', 'zero synonyms share one arm', 'zero synonyms use %d arms' % len(zero_arms))
-            da = t.default_arm()
-            dl = t.leaves(da) if da else []
-            rep.check(da is not None and len(dl) == 1 and dl[0].sig() == 'Err(NaN)', R, lang + '|default', 'default arm is Err(NaN)',
-                      'default arm of apply_decimal is %s' % dl)
-            extra = [k for k in t.all_keys() if k not in lx['decimal_digits']]
-            for k in extra:
-                rep.info(R, '%s|extra|%s' % (lang, k), 'additional decimal word in the tree')
-        else:
-            fw = t.forwarder
-            ok = fw is not None and fw['ok'] and (fw['resolved'] in (None, interp_method(lang, 'apply')))
-            rep.check(ok, R, lang + '|forwarder', 'apply_decimal(word, b) = self.apply(word, b)',
-                      '%s apply_decimal is neither a digit table nor a verbatim forwarder to apply' % lang, ctx.facts.loc(t.body['sp']))
-
-
-# ---------------------------------------------------------------------------------------
-def _fmt_index(facts):
-    idx = {}
-    for fa in facts.format_args:
-        idx[fa['macro_sp']] = fa
-        idx.setdefault(fa['sp'], fa)
-    return idx
-
-
-def _template(ctx, body, e, lets):
-    """Resolve an expression to (pieces, arg expressions) if it is (a local bound to) a format! call."""
-    e = H.peel(e)
-    for _ in range(4):
-        if e.get('k') == 'Path' and e['res'].get('t') == 'local' and e['res']['id'] in lets:
-            e = H.peel(lets[e['res']['id']])
-        else:
-            break
-    idx = ctx.memo('fmtidx', lambda: _fmt_index(ctx.facts))
-    # the format! expansion: outermost node carrying the macro call-site span
-    for n in H.walk(e):
-        if (n.get('exp') or '').startswith('macro:format') and n.get('sp') in idx:
-            fa = idx[n['sp']]
-            pieces = []
-            for p in fa['pieces']:
-                if 'lit' in p:
-                    pieces.append(('lit', p['lit']))
-                else:
-                    pieces.append(('arg', p['arg'], p.get('trait'), p.get('plain')))
-            return pieces, [a['expr'] for a in fa['args']], e
-    return None
-
-
-def _is_to_string_of(e, lets, bid):
-    """expression is `<param>.to_string()` (directly or through a let)."""
-    e = H.peel(e)
-    for _ in range(3):
-        if e.get('k') == 'Path' and e['res'].get('t') == 'local' and e['res']['id'] in lets:
-            e = H.peel(lets[e['res']['id']])
-    return e.get('k') == 'MethodCall' and (e.get('callee') or '').endswith('DigitString::to_string') and H.local_id(e['recv']) == bid
-
-
-def rule_sep_mark(ctx, rep, langs=ALL_LANGS):
-    R = 'A5-SEP-MARK'
-    rep.rule(R, 'is_decimal_sep is true exactly on the separator word; format_decimal_and_value renders {int}<mark>{dec} from the '
-                'two builders in that order and parses {int}.{dec}; format_and_value renders repr (+marker, es 1/repr) and parses that repr')
-    f = ctx.facts
-    for lang in langs:
-        lx = lexicon(lang)
-        ev = evaluator(ctx, lang)
-        sep = lx['decimal_sep']
-        # separator predicate
-        try:
-            yes = ev.call_fn(interp_method(lang, 'is_decimal_sep'), [ev.self_value, sep])
-            others = [lx['zero'][0], lx.get('conjunction') or 'x', 'point', 'virgule', 'coma', 'komma', 'vírgula', 'virgola', ',', '.', '']
-            no = [w for w in others if w != sep and ev.call_fn(interp_method(lang, 'is_decimal_sep'), [ev.self_value, w])]
-            rep.check(yes is True and not no, R, lang + '|separator', '"%s" and nothing else is the decimal separator' % sep,
-                      'is_decimal_sep("%s") = %s; also true for %s' % (sep, yes, no))
-        except Unanalysable as e:
-            rep.anchor(R, lang + '|separator', 'is_decimal_sep not analysable: %s' % e)
-        # decimal template
-        body = f.body(interp_method(lang, 'format_decimal_and_value'))
-        if body is None:
-            rep.anchor(R, lang + '|decimal-template', 'format_decimal_and_value not found')
-        else:
-            lets = H.lets(body['value'])
-            p_int = H.param_binding(body, 1)
-            p_dec = H.param_binding(body, 2)
-            ret = _final_tuple(body)
-            ok, why = False, 'the function does not end in a (text, value) tuple'
-            if ret is not None:
-                text_t = _template(ctx, body, ret[0], lets)
-                val_e = H.peel(ret[1])
-                for _ in range(3):
-                    if val_e.get('k') == 'Path' and val_e['res'].get('t') == 'local' and val_e['res']['id'] in lets:
-                        val_e = H.peel(lets[val_e['res']['id']])
-                val_t = None
-                if val_e.get('k') == 'MethodCall' and val_e['name'] == 'unwrap' and H.peel(val_e['recv']).get('name') == 'parse':
-                    val_t = _template(ctx, body, H.peel(val_e['recv'])['recv'], lets)
-                mark = lx['decimal_mark']
-                ok = True
-                why = ''
-                for what, tpl, sepch in (('text', text_t, mark), ('value', val_t, '.')):
-                    if tpl is None:
-                        ok, why = False, 'the %s is not built by a format! call' % what
-                        break
-                    pieces, args, _n = tpl
-                    shape = [p[0] if p[0] == 'arg' else p[1] for p in pieces]
-                    if shape != ['arg', sepch, 'arg'] or [p[1] for p in pieces if p[0] == 'arg'] != [0, 1] or \
-                            not all(p[2] == 'Display' and p[3] for p in pieces if p[0] == 'arg'):
-                        ok, why = False, 'the %s template is %s, expected {int}%s{dec}' % (what, pieces, sepch)
-                        break
-                    # arguments: int.to_string() then dec.to_string()
-                    a0 = _arg_binding(body, lets, args[0])
-                    a1 = _arg_binding(body, lets, args[1])
-                    if not (a0 is not None and a1 is not None and _is_to_string_of(a0, lets, p_int[0]) and _is_to_string_of(a1, lets, p_dec[0])):
-                        ok, why = False, 'the %s template is filled with (%s, %s), expected (int.to_string(), dec.to_string())' % (what, args[0], args[1])
-                        break
-            rep.check(ok, R, lang + '|decimal-template', 'text {int}%s{dec}, value parse of {int}.{dec}' % lx['decimal_mark'], why, f.loc(body['sp']))
-        # integer / ordinal template
-        body = f.body(interp_method(lang, 'format_and_value'))
-        if body is None:
-            rep.anchor(R, lang + '|ordinal-template', 'format_and_value not found')
-            continue
-        ok, why = _check_format_and_value(ctx, lang, body)
-        rep.check(ok, R, lang + '|ordinal-template', 'text = repr (+ marker for ordinals%s), value = repr.parse()' % (', 1/repr for fractions' if lang == 'es' else ''),
-                  why, f.loc(body['sp']))
-
-
-def _final_tuple(body):
-    e = body['value']
-    while e.get('k') in ('BlockExpr', 'Block'):
-        blk = e['block'] if e['k'] == 'BlockExpr' else e
-        if not blk.get('expr'):
-            return None
-        e = blk['expr']
-    if e.get('k') == 'Tup' and len(e['es']) == 2:
-        return e['es']
-    return None
-
-
-def _arg_binding(body, lets, name_expr):
-    """format argument given as source text (`irepr`, `b.to_string()`): find the let binding of that name, or
-    parse the trivial method call."""
-    for n in H.walk(body['value']):
-        if n.get('k') == 'Let' and n.get('pat', {}).get('k') == 'Binding' and n['pat']['name'] == name_expr and n.get('init'):
-            return n['init']
-    m = re.match(r'^(\w+)\.to_string\(\)$', name_expr)
-    if m:
-        for n in H.walk(body['value']):
-            if n.get('k') == 'MethodCall' and n['name'] == 'to_string' and H.local_name(n['recv']) == m.group(1):
-                return n
-    for p in body['params']:
-        if p.get('k') == 'Binding' and p['name'] == name_expr:
-            return {'k': 'Path', 'res': {'t': 'local', 'id': p['bid'], 'name': p['name']}}
-    # a pattern binding (e.g. `marker` bound by `if let Ordinal(marker) = b.marker`)
-    for n in H.walk(body['value']):
-        if n.get('k') == 'Binding' and n.get('name') == name_expr:
-            return {'k': 'Path', 'res': {'t': 'local', 'id': n['bid'], 'name': n['name']}}
-    return None
-
-
-def _check_format_and_value(ctx, lang, body):
-    """Structural check of format_and_value: repr = b.to_string(); val = repr.parse().unwrap(); results are
-    (format!("{}{}", <b.to_string()|repr>, marker), val) for Ordinal(marker) and (repr, val) otherwise;
-    Spanish additionally (format!("1/{repr}"), val.recip()) for fractions."""
-    lets = H.lets(body['value'])
-    b = H.param_binding(body, 1)
-    names = {b[0]: 'B'}
-    repr_ids = [bid for bid, init in lets.items() if _is_to_string_of(init, lets, b[0])]
-    if len(repr_ids) != 1:
-        return False, 'expected exactly one `let repr = b.to_string()`'
-    rid = repr_ids[0]
-    val_ids = []
-    for bid, init in lets.items():
-        i = H.peel(init)
-        if i.get('k') == 'MethodCall' and i['name'] == 'unwrap':
-            r = H.peel(i['recv'])
-            if r.get('k') == 'MethodCall' and r['name'] == 'parse' and H.local_id(r['recv']) == rid:
-                val_ids.append(bid)
-    if len(val_ids) != 1:
-        return False, 'the value is not `repr.parse().unwrap()` of the rendered digits'
-    vid = val_ids[0]
-    tuples = [n for n in H.walk(body['value']) if n.get('k') == 'Tup' and len(n['es']) == 2 and not n.get('exp')]
-    seen = set()
-    for tp in tuples:
-        text, val = tp['es']
-        val_p = H.peel(val)
-        tpl = _template(ctx, body, text, lets)
-        if H.local_id(text) == rid and H.local_id(val) == vid:
-            seen.add('plain')
-        elif tpl is not None:
-            pieces, args, _n = tpl
-            shape = [p[0] if p[0] == 'arg' else p[1] for p in pieces]
-            if shape == ['arg', 'arg'] and H.local_id(val) == vid:
-                a0 = _arg_binding(body, lets, args[0])
-                ok0 = a0 is not None and (_is_to_string_of(a0, lets, b[0]) or H.local_id(a0) == rid)
-                if not ok0 or args[1] != 'marker':
-                    return False, 'ordinal text is built from (%s, %s), expected the digits followed by the marker' % (args[0], args[1])
-                seen.add('ordinal')
-            elif lang == 'es' and shape == ['1/', 'arg']:
-                a0 = _arg_binding(body, lets, args[0])
-                if not (a0 is not None and (H.local_id(a0) == rid or _is_to_string_of(a0, lets, b[0]))):
-                    return False, 'fraction text is not 1/{repr}'
-                if not (val_p.get('k') == 'MethodCall' and val_p['name'] == 'recip' and H.local_id(val_p['recv']) == vid):
-                    return False, 'fraction value is not val.recip()'
-                seen.add('fraction')
-            else:
-                return False, 'unexpected text template %s' % (pieces,)
-        else:
-            return False, 'a result tuple `%s` is neither (repr, val) nor a known template' % H.render(tp, names)
-    need = {'plain', 'ordinal'} | ({'fraction'} if lang == 'es' else set())
-    if seen != need:
-        return False, 'result forms found %s, expected %s' % (sorted(seen), sorted(need))
-    return True, ''
 
 
 # ---------------------------------------------------------------------------------------
@@ -769,151 +163,7 @@ def spell_ordinal(lang, n):
     raise ValueError(lang)
 
 
-def rule_split_closure(ctx, rep, langs=('de', 'it', 'nl')):
-    R = 'A3-SPLIT-CLOSURE'
-    rep.rule(R, 'splitter patterns and arm keys agree: every pattern has an arm, every compounding word is a pattern, patterns are '
-                'non-empty and distinct, and every piece of every generated compound spelling selects an arm')
-    limit = 9999 if ctx.tier == 'thorough' else 999
-    for lang in langs:
-        if lang not in ('de', 'it', 'nl'):
-            continue
-        lx = lexicon(lang)
-        pats = splitter_patterns(ctx.facts, lang)
-        if pats is None:
-            rep.anchor(R, lang, 'no WordSplitter::new([...]) literal found for %s' % lang)
-            continue
-        sp = Splitter(pats)
-        ok_distinct = all(pats) and len(set(pats)) == len(pats)
-        rep.check(ok_distinct, R, lang + '|distinct', '%d non-empty, pairwise distinct patterns' % len(pats),
-                  'splitter patterns are empty or duplicated (WordSplitter::new(..).unwrap() panics): %s' % [p for p in pats if pats.count(p) > 1 or not p])
-        for p in pats:
-            try:
-                lem, arms = lookup(ctx, lang, p)
-            except Unanalysable as e:
-                rep.anchor(R, '%s|pattern|%s' % (lang, p), str(e))
-                continue
-            rep.check(bool(arms), R, '%s|pattern|%s' % (lang, p), 'pattern has an arm',
-                      'splitter pattern "%s" has no arm in the word table: every compound containing it is rejected' % p)
-        for w in lx.get('compounding', []):
-            rep.check(w in pats, R, '%s|compounding|%s' % (lang, w), 'is a splitter pattern',
-                      '"%s" must be a splitter pattern (compounds containing it cannot be split) but is not in the list' % w)
-        # closure over generated compounds
-        t = table(ctx, lang)
-        ev = evaluator(ctx, lang)
-        bad = {}
-        checked = 0
-        cache = {}
-
-        def has_arm(piece):
-            if piece not in cache:
-                try:
-                    lem = ev.lemma(t, piece)
-                    cache[piece] = bool(t.arms_for(lem))
-                except Unanalysable:
-                    cache[piece] = False
-            return cache[piece]
-        nums = list(range(1, limit + 1)) + [k * 1000 for k in (1, 2, 21, 100, 999)]
-        words = [(n, spell(lang, n)) for n in nums]
-        if ctx.tier == 'thorough':
-            words += [(n, spell_ordinal(lang, n)) for n in range(1, limit + 1)]
-        for n, w in words:
-            checked += 1
-            try:
-                lem = ev.call_fn('lang::%s::lemmatize' % lang, [w]) if ctx.facts.body('lang::%s::lemmatize' % lang) else w
-            except Unanalysable:
-                lem = w
-            if sp.is_splittable(lem):
-                pieces = sp.split(lem)
-            else:
-                pieces = [lem]
-            for pc in pieces:
-                if not has_arm(pc):
-                    bad.setdefault(pc, (n, w))
-        for pc, (n, w) in sorted(bad.items()):
-            rep.violation(R, '%s|piece|%s' % (lang, pc), 'the standard spelling "%s" of %d splits into a piece "%s" that has no arm: the number is rejected' % (w, n, pc))
-        rep.ok(R, lang + '|closure', '%d compound spellings (n <= %d) split into pieces that all have arms' % (checked, limit))
-        rep.floor(R + '#' + lang, checked, 999, 'compound spellings checked')
-
-
 # ---------------------------------------------------------------------------------------
-def _alpha_names(node, keep=('self',)):
-    names = {}
-    for n in H.walk(node):
-        if n.get('k') == 'Path' and n['res'].get('t') == 'local' and n['res']['name'] not in keep:
-            if n['res']['id'] not in names:
-                names[n['res']['id']] = '$%d' % (len(names) + 1)
-    return names
-
-
-def rule_o_annotate(ctx, rep):
-    R = 'A-O-ANNOTATE'
-    rep.rule(R, 'English::basic_annotate marks a token not-a-number only if it is "o" and neither significant neighbour (j-1, j+1 over '
-                'non-whitespace tokens, bounds-guarded) is accepted by apply on a fresh scratch builder; `o` shares the arm of `zero`')
-    f = ctx.facts
-    path = interp_method('en', 'basic_annotate')
-    body = f.body(path)
-    if body is None:
-        rep.anchor(R, 'body', 'English::basic_annotate not found')
-        return
-    outer = None
-    for n in H.walk(body['value']):
-        if n.get('k') == 'If' and not n.get('exp') and re.search(r'text_lowercase\(\) == "o"\)$', H.render(n['c'])):
-            outer = n
-            break
-    if outer is None:
-        rep.violation(R, 'o-test', 'no `if <token>.text_lowercase() == "o"` in the annotation pass: the rule is keyed on something else', f.loc(body['sp']))
-        return
-    names = _alpha_names(outer)
-    c = H.render(outer['c'], names)
-    rep.check(c == '($1[$2].text_lowercase() == "o")', R, 'o-test', 'the candidate is tokens[i] with lowercase text "o"', 'candidate test is `%s`' % c, f.loc(outer['sp']))
-    inner = None
-    for n in H.walk(outer['t']):
-        if n.get('k') == 'If' and not n.get('exp'):
-            inner = n
-            break
-    if inner is None:
-        rep.violation(R, 'neighbour-test', 'no neighbour test under the "o" test', f.loc(outer['sp']))
-        return
-    ic = H.render(inner['c'], names)
-    want = ('((($3 > 0) && self.apply($1[$4[($3 - 1)]].text_lowercase(), $5).is_ok()) || '
-            '((($3 + 1) < $4.len()) && self.apply($1[$4[($3 + 1)]].text_lowercase(), $5).is_ok()))')
-    rep.check(ic == want, R, 'neighbour-test', 'previous (j-1, guarded by j > 0) or next (j+1, guarded by j+1 < len) significant token is a number word',
-              'neighbour test is `%s`, expected `%s`' % (ic, want), f.loc(inner['sp']))
-    then_calls = [H.render(x, names) for x in H.find(inner['t'], 'MethodCall')]
-    else_calls = [H.render(x, names) for x in H.find(inner['e'], 'MethodCall')] if inner.get('e') else []
-    rep.check(then_calls == ['$5.reset()'], R, 'accepted-branch', 'a number neighbour only resets the scratch builder', 'accepted branch does %s' % then_calls)
-    rep.check(else_calls == ['$1[$2].set_nan(true)'], R, 'rejected-branch', 'otherwise the candidate itself is marked not-a-number', 'rejected branch does %s' % else_calls)
-    all_nan = [H.render(x, names) for x in H.find(body['value'], 'MethodCall') if x['name'] == 'set_nan']
-    rep.check(len(all_nan) == 1, R, 'single-marking', 'set_nan is called at one place', 'set_nan is called at %d places' % len(all_nan))
-    # roles
-    inv = {v: k for k, v in names.items()}
-    lets = H.lets(body['value'])
-    tok = H.param_binding(body, 1)
-    rep.check(inv.get('$1') == tok[0], R, 'role|tokens', '$1 is the token vector parameter', 'the indexed collection is not the tokens parameter')
-    b_init = H.render(lets.get(inv.get('$5'))) if inv.get('$5') in lets else None
-    rep.check(b_init == 'DigitString::new()', R, 'role|scratch', 'the scratch builder starts fresh', 'scratch builder is initialised by `%s`' % b_init)
-    s_init = lets.get(inv.get('$4'))
-    s_r = H.render(s_init, {tok[0]: 'T'}) if s_init else ''
-    ok = s_r.startswith('T.iter().enumerate().filter_map(') and s_r.endswith('.collect()')
-    cl = [n for n in H.walk(s_init)] if s_init else []
-    ws = [n for n in cl if n.get('k') == 'MethodCall' and n['name'] in ('is_whitespace', 'is_ascii_whitespace')]
-    ok = ok and len(ws) == 1 and (ws[0].get('callee') or '').startswith('core::char::methods::') and (ws[0].get('callee') or '').endswith('::is_whitespace')
-    filt = [H.render(n['c']) for n in cl if n.get('k') == 'If']
-    ok = ok and len(filt) == 1 and re.match(r'^!\w+\.text_lowercase\(\)\.chars\(\)\.all\(\|\.\.\| \w+\.is_whitespace\(\)\)$', filt[0]) is not None
-    rep.check(ok, R, 'role|significant', 'significant tokens = indices of tokens that are not whitespace-only (so punctuation counts as a neighbour)',
-              'significant-token filter is `%s`' % s_r[:200], f.loc(body['sp']))
-    fors = [n for n in H.walk(body['value']) if n.get('k') == 'Match' and str(n.get('src', '')).startswith('ForLoop') and 'into_iter' in H.render(n['scrut'])]
-    ok = len(fors) == 1 and H.render(fors[0]['scrut'], names) == 'IntoIterator::into_iter($4.iter().enumerate())'
-    rep.check(ok, R, 'role|loop', 'j enumerates the significant indices, i is the token index', 'loop is over `%s`' % (H.render(fors[0]['scrut'], names) if fors else None))
-    # o == zero in both tables
-    for method in ('apply', 'apply_decimal'):
-        t = table(ctx, 'en', method)
-        z = t.arms_for('zero')
-        o = t.arms_for('o')
-        rep.check(bool(z) and bool(o) and z[0] is o[0], R, 'same-arm|' + method, '"o" is a pattern of the arm of "zero" in %s' % method,
-                  '"o" and "zero" are handled by different arms in %s' % method)
-
-
 # ---------------------------------------------------------------------------------------
 # Context tables: scale words after a multiplier, blocked words after their blocker.  The builder state after
 # the first word is a constant of the grammar (its digits, and the flags the first word's own arm stores), so
@@ -940,7 +190,18 @@ SCALE_CONTEXTS = {
            ('miljoen', 'million', [1] + MILLION_M, True, []), ('miljard', 'milliard', [1] + MILLION_M, True, [])],
 }
 # flags stored by the word that ends the multiplier, where the scale arm looks at them (pt only)
-PT_FLAGS_AFTER = {100: 2}
+PT_FLAGS_AFTER = {100: 'cem'}
+
+
+def pt_flags_after(ctx, m):
+    """Flags the last word of the multiplier m stores (pt only: "cem" restricts what may follow)."""
+    w = PT_FLAGS_AFTER.get(m)
+    if w is None:
+        return 0
+    def go():
+        r, b = evaluator(ctx, 'pt').run_apply(w)
+        return b.flags.bits if hasattr(b.flags, 'bits') else b.flags
+    return ctx.memo(('pt_flags_after', w), go)
 
 
 def rule_scale_contexts(ctx, rep, langs=ALL_LANGS):
@@ -950,13 +211,12 @@ def rule_scale_contexts(ctx, rep, langs=ALL_LANGS):
     n = 0
     for lang in langs:
         ev = evaluator(ctx, lang)
-        t = table(ctx, lang)
         for word, cls, ok_m, bare_ok, bad_m in SCALE_CONTEXTS.get(lang, []):
             want = sorted(expected_ops(lang, cls, 0))[0]
             cases = [(None, bare_ok)] + [(m, True) for m in ok_m] + [(m, False) for m in bad_m]
             for m, accept in cases:
                 n += 1
-                flags = PT_FLAGS_AFTER.get(m, 0) if lang == 'pt' else 0
+                flags = pt_flags_after(ctx, m) if lang == 'pt' else 0
                 b0 = Builder() if m is None else Builder(digits=str(m).encode(), flags=flags)
                 ent = '%s|%s|after %s' % (lang, word, 'nothing' if m is None else m)
                 try:
@@ -970,9 +230,6 @@ def rule_scale_contexts(ctx, rep, langs=ALL_LANGS):
                 ops = ['%s(%s)' % (o[0], ', '.join(str(x) for x in o[1:])) for o in b.ops if o[0] != 'freeze']
                 got_ok = isinstance(r, Res) and r.ok
                 loc = None
-                arms = t.arms_for(ev.lemma(t, word))
-                if arms:
-                    loc = _loc(ctx, arms[0])
                 if accept:
                     rep.check(got_ok and ops == [want], R, ent, '%s -> %s' % ('"%s" after %s' % (word, m), want),
                               '"%s" after the multiplier %s is %r with %s, expected Ok with [%s]: the standard spelling of %s is rejected or split' % (
@@ -1108,7 +365,7 @@ def rule_group_ordinal(ctx, rep, langs=ALL_LANGS):
         if not b.frozen:
             problems.append('builder not frozen after the ordinal group')
         rep.check(not problems, R, ent, 'group digits placed once, marker %s kept, builder frozen' % mk,
-                  'compound ordinal "%s": %s' % (word, '; '.join(problems)), ctx.facts.loc(table(ctx, lang).body['sp']))
+                  'compound ordinal "%s": %s' % (word, '; '.join(problems)))
         # a failing group must be propagated unchanged, with nothing placed
         ev2 = LexEvaluator(ctx.facts, lang)
         ev2.group_result = _Res(False, 'NaN')
@@ -1207,7 +464,7 @@ def rule_zero_invariance(ctx, rep, langs=ALL_LANGS):
                 cases.append(('%s' % c['w'], c['w'], b'', 0, ev))
         for word, cls, ok_m, bare_ok, bad_m in SCALE_CONTEXTS.get(lang, []):
             for m in [x for x in (1, 2, 21, 101) if x in ok_m or x in bad_m]:
-                cases.append(('%s after %d' % (word, m), word, str(m).encode(), PT_FLAGS_AFTER.get(m, 0) if lang == 'pt' else 0, ev))
+                cases.append(('%s after %d' % (word, m), word, str(m).encode(), pt_flags_after(ctx, m) if lang == 'pt' else 0, ev))
         if lang in GROUP_TOKENS:
             for gd in (b'21', b'1200', b'21000'):
                 gev = LexEvaluator(ctx.facts, lang)
@@ -1236,33 +493,3 @@ def rule_zero_invariance(ctx, rep, langs=ALL_LANGS):
 
 
 # ---------------------------------------------------------------------------------------
-def rule_arm_atomic(ctx, rep, langs=ALL_LANGS):
-    R = 'A8-ARM-ATOMIC'
-    rep.rule(R, 'every arm of every word table issues at most one builder operation per path and its value is that operation\'s '
-                'result or a constant Err; the default arm is Err(NaN): a rejected word leaves no digits behind')
-    n = 0
-    for lang in langs:
-        for method in ('apply', 'apply_decimal'):
-            try:
-                t = table(ctx, lang, method)
-            except Unanalysable as e:
-                rep.anchor(R, '%s|%s' % (lang, method), str(e))
-                continue
-            if t.match is None:
-                continue
-            for arm in t.arms:
-                n += 1
-                ent = '%s|%s|%s' % (lang, method, '/'.join(arm.pats[:2]) or 'default')
-                bad = []
-                for l in t.leaves(arm):
-                    if l.kind == 'other':
-                        bad.append('value `%s`' % l.op)
-                    for sd in l.sides:
-                        if re.search(r'\bB\.(put|fput|push|shift|put_digit_at|freeze|reset)\(', sd) or sd.startswith('stmt:') and 'B.' in sd:
-                            bad.append('extra builder operation `%s` before the result' % sd)
-                if arm.is_default:
-                    lv = t.leaves(arm)
-                    if not (len(lv) == 1 and lv[0].sig() == 'Err(NaN)'):
-                        bad.append('default arm is %s, expected Err(NaN)' % lv)
-                rep.check(not bad, R, ent, 'single operation or constant error per path', 'arm %s: %s' % (arm.pats or 'default', '; '.join(bad)), _loc(ctx, arm))
-    rep.floor(R, n, 320, 'arms inspected')
